@@ -236,6 +236,21 @@ CHECKS = {
         "The shuffle stub reads the generator's locals to merge equivalent answers. Soundness of parses is "
         "checked, not completeness of the eager strategy. Bounds in evidence.",
         "DESIGN.md 4/C18"),
+    "C14": (
+        "exhaustive enumeration of parametrised boxes x expressions x substitutions x supply modes and of "
+        "all two-box diagrams over that alphabet, the real subs/lambdify/eval/free_symbols compared on a "
+        "value grid",
+        "Every parametrised box class (rotations, controlled rotations and their daggers; pure, mixed and "
+        "sqrt scalars; classical gates and their daggers; tensor boxes; ZX spiders and scalars) with every "
+        "expression of the menu in two real symbols, under every substitution kind (float, int, Rational, "
+        "symbol, expression, list of pairs, successive in both orders) and every two-box diagram with a "
+        "parametrised box: subs-then-eval must equal eval-then-subs numerically on the value grid (pure and "
+        "mixed), dom/cod/box classes/dagger flags/mixedness must be unchanged, free_symbols must be exactly "
+        "the symbols of the box parameters before and after, lambdify(*syms)(*vals) must evaluate like "
+        "subs(zip(syms, vals)) and leave no free symbol.",
+        "Real sympy symbols; tolerance 1e-9; values on a 3-point grid per symbol (entries are analytic in the "
+        "parameters). ZX diagrams are valued by the textbook semantics of the phases the library holds.",
+        "DESIGN.md 4/C14"),
 }
 
 PENDING_REASON = ("check not built yet in this session (planned: bounded exhaustive exploration as in "
